@@ -212,6 +212,77 @@ def stream(ctx):
     _stream(ctx, ctx.spec.get('stream_modes', ['corr', 'neutral']))
 
 
+E2E_COUNTS = {'quick': {'filter': 160, 'neutral': 120, 'rules': 80}, 'thorough': {'filter': 4000, 'neutral': 3000, 'rules': 1200}}
+E2E_RULES = {
+    'filter': 'generated histories built into real repositories by git fast-import (work tree checked out, HEAD on a random branch), the real CLI run with --force and a generated option set (selectors, renames, ref renames, stripping, literal rules, identity files, dates, pruning modes), default cleanup; the result repository is exported again by git and the Lean oracles (Frrs/Oracle.lean over the importer contract) are evaluated on real export before / real export after / commit-map / ref-map; plus direct plumbing checks (commit-map ids exist, HEAD/status, refs of a failed run unchanged). Non-trivial: the run succeeds and prunes a commit or renames a ref.',
+    'neutral': 'the same with no option and pruning disabled: every ref must resolve to the same object id as before (for-each-ref before = after, HEAD unchanged). Non-trivial: every successful run.',
+    'rules': 'the same with literal --replace-text/--replace-message rule files only; afterwards every object of the object database (cat-file --batch-all-objects: reachable or not, packed or loose) is scanned: blobs for the text literals, commit/tag messages for the message literals; only literals that no replacement of the file can re-create (Compat) are claimed. Non-trivial: a claimed literal exists.',
+}
+
+
+def _e2e(ctx, modes):
+    from . import e2e
+    with C.BuildLock():
+        ok, out = C.cli_build()
+    if not ok:
+        raise C.Infra('the CLI of /repo does not build: ' + out[-300:])
+    pid = ctx.pid
+    for mode in modes:
+        n = E2E_COUNTS[ctx.tier][mode]
+        t0 = time.time()
+        cases = e2e.gen_cases(mode, ctx.seed, n)
+        results = e2e.run_pool(e2e.filter_case, cases)
+        dist, errors, mine, others = {}, [], [], 0
+        for r in results:
+            for k, v in r['dist'].items():
+                dist[k] = dist.get(k, 0) + v
+            if r.get('error'):
+                errors.append((r['id'], r['error']))
+            for (p, msg) in r['failures']:
+                if p == pid:
+                    mine.append((r['id'], msg))
+                else:
+                    others += 1
+        if errors:
+            dist['harness-errors'] = len(errors)
+            ctx.notes.append(f'e2e({mode}) harness errors: {errors[:3]}')
+        nontrivial = dist.get('tool-ok', 0) if mode != 'filter' else dist.get('runs-with-pruned-commits', 0) + dist.get('runs-with-renamed-refs', 0)
+        ctx.parts.append(dict(name=f'e2e({mode})', evaluations=len(cases), distinct_nontrivial=nontrivial, rule=E2E_RULES[mode],
+                              samples=[{'cli': cases[0]['cli'], 'head': cases[0]['head'], 'n_commits': cases[0]['n_commits']}] if cases else [],
+                              distribution=dist, wall_s=round(time.time() - t0, 1), impl_property_failures_for_this_property=len(mine),
+                              impl_property_failures_other_properties=others))
+        seen = set()
+        for cid, msg in mine:
+            if cid in seen or len(seen) >= 3:
+                continue
+            seen.add(cid)
+            case = [c for c in cases if c['id'] == cid][0]
+            path = C.write_replay(pid, 'oracle-failure', dict(runner='e2e', mode=mode, case_id=cid, seed=ctx.seed, count=n,
+                                                             cli=case['cli'], head=case['head'], stream_hex=case['stream_hex'], aux=case['aux'],
+                                                             property_failure=msg))
+            ctx.violations.append((path, False, msg[:300]))
+
+
+@runner
+def e2e_filter(ctx):
+    _e2e(ctx, ctx.spec.get('e2e_modes', ['filter']))
+
+
+def _replay_e2e(ctx, doc, path):
+    from . import e2e
+    with C.BuildLock():
+        C.cli_build()
+    cases = e2e.gen_cases(doc['mode'], doc.get('seed', 1), doc['count'])
+    case = [c for c in cases if c['id'] == doc['case_id']][0]
+    r = e2e.filter_case(case)
+    mine = [m for (p, m) in r['failures'] if p == ctx.pid]
+    print(json.dumps({'failures': r['failures'], 'error': r.get('error')}, indent=1))
+    if mine:
+        print(f'VIOLATION property={ctx.pid} replay={path}')
+        return 1
+    return 0
+
+
 def _replay_stream(ctx, doc, path):
     tmp = os.path.join(C.CACHE, f'scase-{os.getpid()}.json')
     json.dump({'mode': doc['mode'], 'case_id': doc['case_id'], 'seed': doc.get('seed', 1), 'tier': doc.get('tier', 'quick')}, open(tmp, 'w'))
@@ -321,4 +392,4 @@ def replay(ctx, path):
     return check(ctx, time.time())
 
 
-REPLAYERS = {'stream': _replay_stream}
+REPLAYERS = {'stream': _replay_stream, 'e2e': _replay_e2e}
